@@ -335,6 +335,8 @@ class DatasetWorld(object):
                     r = rng.random()
                     if how == "ctor_diff" and r < 0.55:
                         kind = self.cfg["dim_kind"].get(d)
+                        if kind in ("int", "float") and rng.random() < 0.2:
+                            kind = "float" if kind == "int" else "int"      # integer labels meet float labels in the join
                         labs = V.gen_labels(rng, rng.randint(max(1, self.cfg["min_len"]), self.cfg["max_len"]), kind, rng.choice(self.cfg["orders"]))
                     elif how == "ctor_diff" and r < 0.8 and len(shared[d]) >= 2:
                         # the same labels in another order (same ends when long enough): still to be aligned
@@ -714,6 +716,8 @@ class DatasetWorld(object):
             st["drop_key"] = rng.random() < 0.3
             st["transpose_var"] = rng.random() < 0.3
             st["other_labels"] = rng.random() < 0.35
+            if dims and rng.random() < 0.2:
+                st["other_reduced"] = {"dim": rng.choice(dims), "fn": rng.choice(["sum", "mean"])}    # ds - ds.mean(axis=d)
         return st
 
     # ------------------------------------------------------------------ execution
